@@ -30,7 +30,7 @@ func VH_C12_PublicChat() {
 	padded := []string{"           me", "ABCDEFGHIJKLM"}
 	ni := vChoice("name", 2)
 	_, cc, b, c := c12Setup(names[ni])
-	msg := vBytes("msg", 9000)
+	msg := vBytes("msg", 70000)
 	emote := vBool("emote")
 	fields := []hotline.Field{hotline.NewField(hotline.FieldData, msg)}
 	if emote {
@@ -133,6 +133,11 @@ func VH_C12_PrivateChat() {
 	vAssert("joiner_not_notified_about_itself", c12Count(res, c.ID, hotline.TranNotifyChatChangeUser) == 0)
 	vAssert("join_reply_lists_members", len(res) == len(members)+1 && res[len(res)-1].IsReply == 1 && len(res[len(res)-1].Fields) == 1+len(members)+1)
 	vAssert("joined", len(srv.ChatMgr.Members(chat)) == len(members)+1)
+	// joining again (e.g. accepting a second invitation) changes nothing: still a member once
+	HandleJoinChat(c, &jn)
+	vAssert("second_join_is_idempotent", len(srv.ChatMgr.Members(chat)) == len(members)+1)
+	res = HandleChatSend(cc, &t)
+	vAssert("member_that_joined_twice_receives_once", c12Count(res, c.ID, hotline.TranChatMsg) == 1 && len(res) == len(members)+1)
 	// cee leaves: remaining members are told, cee gets nothing, and nothing further afterwards
 	lv := hotline.NewTransaction(hotline.TranLeaveChat, c.ID, hotline.NewField(hotline.FieldChatID, chat[:]))
 	res = HandleLeaveChat(c, &lv)
